@@ -230,6 +230,59 @@ def first_diff(a, b):
     return None
 
 
+def boundary_clauses(ck, exe, tmp, tier):
+    """typelibs larger than 64 KiB whose blobs are moved through every 4-byte position by a padding string: some array type
+    blob then starts exactly at offset 0x10000 (and 0x20000 in the thorough tier); every parameter type must be reported
+    as written whatever its offset"""
+    n = 1500 if tier == 'quick' else 3200
+    head = ('<?xml version="1.0"?>\n<repository version="1.2" xmlns="http://www.gtk.org/introspection/core/1.0" '
+            'xmlns:c="http://www.gtk.org/introspection/c/1.0" xmlns:glib="http://www.gtk.org/introspection/glib/1.0">\n'
+            '<namespace name="T" version="1.0" shared-library="libt.so" c:identifier-prefixes="T" c:symbol-prefixes="t">\n')
+    fn = ('<function name="f%d" c:identifier="t_f%d"><return-value transfer-ownership="none"><type name="none" c:type="void"/></return-value>'
+          '<parameters><parameter name="a" transfer-ownership="none"><array zero-terminated="0" fixed-size="%d" c:type="gint32*">'
+          '<type name="gint32" c:type="gint32"/></array></parameter></parameters></function>\n')
+    body = ''.join(fn % (i, i, i + 1) for i in range(n))
+    bad = None
+    shifts = range(0, 128, 4)
+    for sh in shifts:
+        pad = '<constant name="PAD" value="%s" c:type="T_PAD"><type name="utf8" c:type="gchar*"/></constant>\n' % ('p' * (sh + 1))
+        gir = os.path.join(tmp, 'T-1.0.gir')
+        open(gir, 'w').write(head + pad + body + '</namespace>\n</repository>\n')
+        rc, o = run([os.path.join(CBUILD, 'g-ir-compiler'), gir, '-o', os.path.join(tmp, 'T-1.0.typelib')], timeout=300)
+        if rc != 0:
+            ck.tie_broken('correspondence', 'g-ir-compiler rejected the large namespace: ' + o[-500:])
+            return
+        size = os.path.getsize(os.path.join(tmp, 'T-1.0.typelib'))
+        if size <= 0x10000 + 4096:
+            ck.tie_broken('harness', 'the large namespace compiles to %d bytes only: no blob reaches offset 0x10000' % size)
+            return
+        p = subprocess.run([exe, tmp, 'T'], capture_output=True, text=True, timeout=300)
+        if p.returncode != 0:
+            ck.failing_input('repository API walk crashed (rc=%d) on a large typelib' % p.returncode,
+                             dict(functions=n, padding=sh + 1, typelib_bytes=size), detail=p.stderr[-500:])
+            return
+        cur = None
+        for line in p.stdout.splitlines():
+            l = line.strip()
+            if l.startswith('E function f'):
+                cur = int(l.split(' ')[2][1:])
+            elif l.startswith('A a ') and cur is not None:
+                m = re.search(r'type=(\S+)', l)
+                want = 'array[0,zero=0,len=-1,fixed=%d,' % (cur + 1)
+                if m is None or not m.group(1).startswith(want):
+                    bad = dict(function='f%d' % cur, expected_type=want + 'gint32...]', reported=None if m is None else m.group(1),
+                               functions=n, padding_bytes=sh + 1, typelib_bytes=size,
+                               gir='namespace T: <constant PAD value="p"*%d>, then f0..f%d (a: gint32[fixed-size=i+1])' % (sh + 1, n - 1))
+                    break
+                cur = None
+        if bad:
+            break
+    ck.count_case(dict(scenario='blobs moved through every position across 0x10000', functions=n, paddings=len(shifts)), kind='boundary')
+    if bad:
+        ck.failing_input('the API reports another type for a parameter than the GIR says (a large typelib: the type blob lies at or '
+                         'near a multiple of 65536)', bad)
+
+
 def main(tier, seed):
     ck = Check('C09', tier, seed)
     ck.assumptions += ['the accessor arithmetic is proved against a hand model of the builder (girnode.c), tied to the real '
@@ -250,6 +303,7 @@ def main(tier, seed):
     tmp = tempfile.mkdtemp(prefix='giv09')
     jobs, jgirs = [], []
     try:
+        boundary_clauses(ck, exe, tmp, tier)
         for i in range(nns):
             g = girgen.Gen(rng)
             ns = g.namespace(rng.choice([4, 8, 12, 20]))
